@@ -62,6 +62,7 @@ class Manifest(DashElement):
         if mode != 'live':
             if self.profiles and "urn:mpeg:dash:profile:isoff-on-demand:2011" in self.profiles:
                 self.mode = 'odvod'
+        self.declaredPublishTime: datetime.datetime | None = self.publishTime
         if self.publishTime is None:
             self.publishTime = datetime.datetime.now(tz=UTC())
         self.mpd_type = xml.get("type", "static")
@@ -185,6 +186,10 @@ class Manifest(DashElement):
             self.attrs.check_not_none(
                 self.availabilityStartTime,
                 msg=f"MPD@availabilityStartTime must be present for live manifest: {self.url}")
+            self.attrs.check_not_none(
+                self.declaredPublishTime,
+                msg=f"MPD@publishTime must be present for live manifest: {self.url}",
+                clause='5.3.1.2')
             self.attrs.check_not_none(
                 self.timeShiftBufferDepth,
                 msg=f"MPD@timeShiftBufferDepth must be present for live manifest: {self.url}")
